@@ -300,14 +300,14 @@ fn check_living(c: &super::c03::HCase, obs: &mut Obs) -> Verdict {
 
 fn subs() -> Vec<Sub> {
     vec![
-        gen_sub("living_object", super::c03::living, |t| t.pick(8_000, 160_000), check_living),
-        gen_sub("large_regular", large, |t| t.pick(150, 3_000), check),
+        gen_sub("living_object", super::c03::living, |t| t.pick(16_000, 160_000), check_living),
+        gen_sub("large_regular", large, |t| t.pick(300, 3_000), check),
         gen_sub("deep_nesting", deep, |t| t.pick(600, 12_000), check),
-        gen_sub("crowded_positions", crowded, |t| t.pick(4_000, 80_000), check),
-        gen_sub("regular", regular, |t| t.pick(20_000, 400_000), check),
-        gen_sub("index", index, |t| t.pick(5_000, 100_000), check),
-        gen_sub("hermes", hermes, |t| t.pick(5_000, 100_000), check),
-        gen_sub("noncanonical_documents", docs, |t| t.pick(15_000, 300_000), check),
+        gen_sub("crowded_positions", crowded, |t| t.pick(8_000, 80_000), check),
+        gen_sub("regular", regular, |t| t.pick(40_000, 400_000), check),
+        gen_sub("index", index, |t| t.pick(10_000, 100_000), check),
+        gen_sub("hermes", hermes, |t| t.pick(10_000, 100_000), check),
+        gen_sub("noncanonical_documents", docs, |t| t.pick(40_000, 300_000), check),
     ]
 }
 
